@@ -8,7 +8,19 @@ from ..astutil import assignments_to, iter_stmts, const_str
 from ..loader import ancestors, parent
 
 CAS = "cli/commands/run/handlers/cassettes.py"
-SOURCES = ("interaction.request.uri", "interaction.request.headers", "interaction.response.headers")
+SOURCE_TAILS = ("request.uri", "request.headers", "response.headers")
+
+
+def _interaction_vars(fn_node: ast.AST) -> set[str]:
+    """Loop variables ranging over the recorded interactions (`for _, x in <recorder>.interactions.items()`)."""
+    out = set()
+    for n in ast.walk(fn_node):
+        if isinstance(n, ast.For) and isinstance(n.iter, ast.Call) and isinstance(n.iter.func, ast.Attribute) and "interactions" in unparse(n.iter.func.value, 200):
+            if n.iter.func.attr == "items" and isinstance(n.target, ast.Tuple) and len(n.target.elts) == 2 and isinstance(n.target.elts[1], ast.Name):
+                out.add(n.target.elts[1].id)
+            elif n.iter.func.attr == "values" and isinstance(n.target, ast.Name):
+                out.add(n.target.id)
+    return out
 FLAG = "sanitize_output"
 
 
@@ -65,17 +77,23 @@ def r1_writers(chk: Check) -> None:
     for ref in (f"{CAS}:vcr_writer", f"{CAS}:har_writer"):
         fn = P.func(ref)
         closures = {q.rsplit(".", 1)[1]: f for q, f in fn.module.functions.items() if q.startswith(fn.name + ".")}
+        ivs = _interaction_vars(fn.node)
+        if not ivs:
+            chk.undecided("C15.R1", fn, "loop over the recorded interactions", "not recognised", fn.loc())
+            continue
+        SOURCES = tuple(f"{iv}.{t}" for iv in ivs for t in SOURCE_TAILS)
         for owner in [fn, *closures.values()]:
             for n in walk_body(owner.node):
                 d = dotted(n) if isinstance(n, ast.Attribute) else None
                 if d not in SOURCES:
                     continue
+                d_disp = "interaction." + d.split(".", 1)[1]
                 # skip inner parts of a longer chain (handled at the outermost attribute)
                 if isinstance(parent(n), ast.Attribute) and dotted(parent(n)) in SOURCES:
                     continue
                 total += 1
                 arm = _flag_arm(n, owner.node)
-                construct = f"{owner.name}: use of {d} ({unparse(stmt_of(n), 60)})"
+                construct = f"{owner.name}: use of {d_disp} ({unparse(stmt_of(n), 60)})"
                 p_ = parent(n)
                 # non-secret projections: Content-Type lookup
                 if isinstance(p_, ast.Attribute) and p_.attr == "get" and isinstance(parent(p_), ast.Call) and const_str(parent(p_).args[0]) in ("Content-Type", "content-type"):  # type: ignore[union-attr]
@@ -110,10 +128,13 @@ def r1_writers(chk: Check) -> None:
         # values derived from a sanitized variable inherit (query string, cookies): they must be computed from the
         # sanitized name, not from the raw source
         if fn.name == "har_writer":
-            t = unparse(fn.node, 100000)
-            chk.expect("interaction.request.uri).query" not in t and "parse_qsl(query_params" in t, "C15.R1", fn, "HAR queryString derives from the sanitized uri", "query records are parsed from the raw request URI", fn.loc())
+            pq = [c for c in body_calls(fn) if last_attr(c) == "parse_qsl" and c.args]
+            raw_q = [c for c in pq if any(any(f"{iv}.request.uri" in x for iv in ivs) and "sanitize_url(" not in x for x in canon(fn, c.args[0]) if x != unparse(c.args[0]))]
+            flag_dep = [c for c in pq if any("sanitize_url(" in x for x in canon(fn, c.args[0]))]
+            chk.expect(bool(pq) and bool(flag_dep), "C15.R1", fn, "HAR queryString derives from the sanitized uri", "query records are parsed from the raw request URI", fn.loc())
+            del raw_q
             cookies = [c for c in body_calls(fn) if last_attr(c) == "_extract_cookies"]
-            raw = [c for c in cookies if any((dotted(a) or "").startswith("interaction.") for x in c.args for a in ast.walk(x))]
+            raw = [c for c in cookies if any(any((dotted(a) or "").startswith(f"{iv}.") for iv in ivs) for x in c.args for a in ast.walk(x))]
             chk.decide(not raw, "C15.R1", fn, "HAR cookies derive from the sanitized headers", "cookie records are extracted from the raw headers", fn.loc(raw[0]) if raw else fn.loc())
     if total < 8:
         chk.undecided("C15.R1", "<discovery>", f"uses={total}", "fewer source uses than confirmed by hand")
